@@ -5,6 +5,7 @@ import core
 import m1lib
 import molfacts
 import molgen
+from props import c02_cov
 
 
 def hash_cases(ctx, n):
@@ -30,7 +31,7 @@ def hash_cases(ctx, n):
         ctx.count(('hash', tuple(xs), seed), ln > 0)
     ctx.sample({'hash_case': payloads['hash1']})
     return core.compare_cases(ctx, cases, ['From E3FP Require Import Base.Murmur3.', 'From Coq Require Import ZArith List Bool.', 'Import ListNotations.'], 'C02 MurmurHash3', payloads,
-                              finding_key_of=lambda k, p: 'hash', shard=500)
+                              finding_key_of=lambda k, p: 'hash', shard=64)
 
 
 def offtable_key(c):
@@ -58,14 +59,38 @@ def dative_case(ctx):
     return m1lib.Case('dative:[NH3]->[Pt](Cl)(Cl)<-[NH3]', m, 0, dict(molgen.DEFAULT_OPTS))
 
 
+def spread(cases):
+    """Order the cases so that the expensive ones (many retained atoms x levels: the shipped molecules on a reused object) are dealt
+    round-robin over the parallel Coq shards instead of filling the last two."""
+    n = max(1, core.NCPU)
+    size = max(1, -(-len(cases) // n))
+    order = sorted(cases, key=lambda c: -(len(c.heavy_retained()) ** 2) * (1 + (c.k if c.err is None else 0)))
+    nb = -(-len(cases) // size)
+    cap = [size] * (nb - 1) + [len(cases) - size * (nb - 1)]      # consecutive slices of `size` coincide with the buckets
+    buckets = [[] for _ in range(nb)]
+    j = 0
+    for c in order:
+        while len(buckets[j % nb]) >= cap[j % nb]:
+            j += 1
+        buckets[j % nb].append(c)
+        j += 1
+    return [c for b in buckets for c in b], size
+
+
 def run(ctx):
     ok, res = core.proof_step(ctx)
     found = False
     found |= hash_cases(ctx, ctx.n(500, 20000)) > 0
     cases = m1lib.gen_cases(ctx, ctx.n(120, 2500))
-    # a sanitised molecule must fingerprint: any implementation error on >= 1 retained heavy atom is a failure of C02
     for c in cases:
-        if c.err is not None and c.heavy_retained():
+        c02_cov.count_stop(ctx, c)
+    # directed inputs for the classes / option values / call sequences the random stream draws rarely or never (work/coverage_C02.md)
+    directed = c02_cov.directed_cases(ctx)
+    cases += directed
+    # a sanitised molecule must fingerprint: any implementation error on >= 1 retained heavy atom is a failure of C02
+    # (the constructor's documented refusal of level -1 without duplicate removal is not a molecule's failure; it is compared with the model)
+    for c in cases:
+        if c.err is not None and c.heavy_retained() and not getattr(c, 'refusal', False):
             found = True
             ctx.fail('fingerprinting raised %s on a sanitised molecule with %d retained heavy atoms' % (c.exc, len(c.heavy_retained())),
                      c.payload(), finding_key=offtable_key(c))
@@ -80,12 +105,23 @@ def run(ctx):
         cases.append(dc)
         if dc.err is not None:
             ctx.fail('fingerprinting raised %s on a sanitised molecule with a DATIVE bond' % dc.exc, dc.payload(), finding_key=offtable_key(dc))
-    found |= m1lib.run_cases(ctx, cases, 'C02 E3FP core') > 0
+    cases, shard = spread(cases)
+    found |= m1lib.run_cases(ctx, cases, 'C02 E3FP core', shard=shard) > 0
+    # statements about the implementation's call forms (mask forms, exact, run(...) forms, fresh interpreter), on inputs whose run the
+    # model comparison above covers
+    found |= c02_cov.direct_checks(ctx, directed + cases[:40]) > 0
     ctx.coverage['rule'] = ('random int64 arrays against mmh3; (molecule, conformer, options) cases from %d SMILES embedded offline and the shipped SDFs, '
                             'coordinates on a 2^-16 A grid, options sampled over level/multiplier/stereo/duplicate removal/connected-only/invariants/'
                             'floating exclusion, each with 2 fingerprint queries (level incl. -1/None/too large, bits, atom mask, counts); compared: '
                             'current_level and every level\'s (identifier, centre, substructure) set; non-trivial: reaches level >= 1 and, with stereo, '
-                            'picks a y axis in some shell; distinct by (molecule, conformer, options)' % len(molgen.SMILES))
+                            'picks a y axis in some shell; distinct by (molecule, conformer, options).  Directed (input_distribution.directed): constructor refusal, option '
+                            'values/dtypes (multiplier 0 / negative / int / numpy, numpy level and bits, bits 1 / 2^31 / 1000), isotope-charge-radical invariants with both '
+                            'invariant sets, shuffled atom order, gapped conformer ids, connected-only mode on multi-fragment molecules, each stopping rule with and '
+                            'without duplicate removal, zero/one retained atom, second off-table bond type, one object over several molecules; every directed case '
+                            'queried at every level (None, -1, 0..k+1) with rotating mask kinds (none/1/2/3/all/foreign/mixed/all-but-one) and lengths incl. refused ones.  '
+                            'Direct (input_distribution.directed.direct): mask container forms and single int, get_shells_at_level against the fingerprint, exact=True, '
+                            'positional call, run(conformer | conformer, mol | keywords | mol alone | id alone | numpy id), never-run object, hash value forms, '
+                            'ShellsGenerator alone, substructs_to_pdb names, fresh interpreter with another hash seed' % len(molgen.SMILES))
     ctx.assumptions += ['RDKit atom/bond getters and conformer coordinates are inputs of the model (read independently by the harness)',
                         'inputs within 2^-30 (relative) of a decision threshold are tagged by the exact-arithmetic transcription harness/m1_spec.py and skipped (counted in input_distribution.unstable_skipped)',
                         'mmh3 C library: compared with the Coq MurmurHash3 on every run']
@@ -94,4 +130,9 @@ def run(ctx):
 
 
 def replay(ctx, path):
+    import json
+    d = json.load(open(path))
+    if not str(d.get('what', '')).startswith('C02 E3FP core') and d.get('kind') == 'correspondence' and 'molblock' in d.get('case', {}) and \
+            ('form' in d['case'] or 'exact' in d['case'] or 'mask' in d['case'] or 'kept' in d['case']):
+        return c02_cov.replay_direct(ctx, d, path)
     return m1lib.replay_case(ctx, path)
